@@ -20,7 +20,19 @@ var c01Numerals = []string{
 	"123456789012345678901234567890", "0.000000000000000000000000000000000000000001", "1e0", "-.5", "+.5", "1.5.5", "1e3e3", "１.５", "1٫5", "½",
 }
 
+// dash look-alikes: hyphen, non-breaking hyphen, figure/en/em dash, horizontal bar, minus sign, small and fullwidth hyphen
+var c01DashLookalikes = []string{
+	"1990\u20132000", "\u2014", "\u2010x", "a\u2011b", "\u22125", "\uff0d1", "\u2012", "\u2015x=y", "x\u2013", "\u2013", "\u2013\u2013name", "\ufe63v", "3\u22121",
+}
+
 func c01Value(r *Rng, k Kind, attached bool) string {
+	if pk := r.Peek(0xDA5); pk%14 == 0 {
+		return c01DashLookalikes[int((pk/14)%uint64(len(c01DashLookalikes)))]
+	}
+	return c01ValueOld(r, k, attached)
+}
+
+func c01ValueOld(r *Rng, k Kind, attached bool) string {
 	for tries := 0; tries < 100; tries++ {
 		var v string
 		switch r.Intn(6) {
